@@ -70,6 +70,17 @@ def check_book(world, i, op, out):
                                 {"f": fname, "x": xname})
             st["returns_g"].setdefault((fname, xk), dg)
         world.reach["book_queries"] += 1
+    # ---- I0: a function is what it was built as: no later operation (`+=`, a query, a step) changes its terms
+    snap = st.setdefault("decomp0", {})
+    for n, F in funcs:
+        # (terms of weight zero may come and go: the library prunes them when it needs the effective terms)
+        cur = None if F.get_is_leaf() else tuple(sorted((id(t), float(w)) for t, w in F.decomposition_dict.items()
+                                                        if w != 0))
+        if n not in snap:
+            snap[n] = cur
+        elif snap[n] != cur:
+            world.violation("C07/I0", "composite-function-changed-after-it-was-built", {"f": n})
+            snap[n] = cur
     # ---- invariants over the recorded samples of every function
     samples = {}
     for n, F in funcs:
